@@ -2,7 +2,7 @@
 """Sensitivity probe: apply one textual change to a scratch copy of /repo, confirm the repository's own tests still
 pass, run property checks against the copy, report, clean up.
 
-usage: probe.py <PROPS comma separated> <file relative to repo> <old text> <new text> [--keep] [--notests]
+usage: probe.py <PROPS comma separated> <file relative to repo> <old text> <new text> [<old2> <new2> ...] [--keep] [--notests]
 """
 import os
 import shutil
@@ -16,17 +16,20 @@ ROOT = os.path.dirname(os.path.dirname(os.path.abspath(__file__)))
 def main():
     args = [a for a in sys.argv[1:] if not a.startswith("--")]
     flags = [a for a in sys.argv[1:] if a.startswith("--")]
-    props, rel, old, new = args[0].split(","), args[1], args[2], args[3]
+    props, rel = args[0].split(","), args[1]
+    pairs = [(args[i], args[i + 1]) for i in range(2, len(args) - 1, 2)]
     d = tempfile.mkdtemp(prefix="probe-", dir="/tmp")
     repo = os.path.join(d, "repo")
     shutil.copytree("/repo", repo, ignore=shutil.ignore_patterns(".git"))
     p = os.path.join(repo, rel)
     s = open(p).read()
-    if s.count(old) != 1:
-        print("old text occurs %d times in %s (must be exactly 1)" % (s.count(old), rel))
-        shutil.rmtree(d)
-        return 2
-    open(p, "w").write(s.replace(old, new))
+    for old, new in pairs:
+        if s.count(old) != 1:
+            print("old text %r occurs %d times in %s (must be exactly 1)" % (old[:40], s.count(old), rel))
+            shutil.rmtree(d)
+            return 2
+        s = s.replace(old, new)
+    open(p, "w").write(s)
     env = dict(os.environ, GOFLAGS="-mod=mod", GOPROXY="off", GOSUMDB="off", GOTOOLCHAIN="local")
     rc = 0
     try:
